@@ -628,3 +628,45 @@ def check_C18(tier, seed, rest):
                    "and every dependency-respecting permutation of every subset (>= 2) of the #[logos(...)] items {skip(..), extras, error, subpattern a, subpattern b (uses a), utf8}; TLC also checks that the tokenizer model "
                    "(parser/nested.rs) splits each argument list like the abstract grammar; each case is run through the real derive and compared with its canonical order: same verdict, same captured leaves, priorities and final graph"}
     finish("C18", tier, seed, "exploration", cov, r["findings"], t0, ["argument values are fixed representatives (priority = 7, ignore(case), allow_greedy = true, a closure callback)"])
+
+
+def check_C17(tier, seed, rest):
+    t0 = time.time()
+    import front
+    r = front.cli_run(tier, seed)
+    cov = {"evaluations": r["strip_cases"] + r["history_steps"], "distinct_nontrivial": r["strip_cases"] + r["histories"], "samples": r["samples"],
+           "tlc_states": r["tlc"]["distinct"], "strip_cases": r["strip_cases"], "file_histories": r["histories"], "file_history_steps": r["history_steps"],
+           "rule": "Cli.tla part 1: enum sources = derive lists (every sequence of 1..3 distinct entries of {Debug, Logos, Clone, serde::Serialize, logos::Logos}, with/without trailing comma, optional second derive attribute) "
+                   "x other attributes (doc+repr before, cfg_attr after, allow between logos attributes) x 0..2 #[logos] attributes, over a fixed body with variant docs, cfg, two regex attributes on one variant and a field attribute; "
+                   "the real binary's stdout must parse as Rust, its first item must equal the expected stripped enum (derive lists compared as lists of paths) and the rest must equal generate()'s output. "
+                   "Part 2: every history of write/check/tamper/crlf/delete up to the bound, exit status and file state compared after every step; distinct = distinct sources + distinct histories"}
+    finish("C17", tier, seed, "exploration", cov, r["findings"], t0, ["the enum body is fixed; only attribute placement and derive lists vary", "--format (rustfmt) is not exercised"])
+
+
+def check_C09(tier, seed, rest):
+    t0 = time.time()
+    import front
+    r = front.prio_run(tier, seed)
+    cov = {"evaluations": r["cases"], "distinct_nontrivial": r["cases"], "samples": r["samples"], "tlc_states": r["tlc"]["distinct"], "asts": r["asts"], "agree": r["agree"],
+           "rule": "Regex.tla enumerates every AST up to depth 2 over atoms {a, ab, e', e'a, [ab], [ae'], [abe'], $} with cat / alt / rep (8 bound pairs) and checks LiteralNotBeaten (Matches(r,w) => Complexity(r) <= 2*bytes(w), words up to 3 chars) on each; "
+                   "every rendered pattern (distinct text) is run through the real derive as #[regex], and a seventh of them also as skip, with ignore(case) and with an explicit priority; literal tokens incl. multi-byte, metacharacter and byte-string ones; "
+                   "quick = all small ASTs + a seeded sample, thorough = all 7 552"}
+    finish("C09", tier, seed, "exploration", cov, r["findings"], t0, ["the rendering AST -> regex text is the harness's", "that a literal then wins or an ambiguity is reported follows from C01/C08 on the corpus"])
+
+
+def check_C16(tier, seed, rest):
+    t0 = time.time()
+    import front
+    defs = base_corpus(tier, seed)
+    defs += [d for d in literal_corpus(tier, seed)[:40]]
+    # definitions with many states, many errors and more than 8 loop masks, so that every sorted site has several entries
+    defs.append(corpus.mk("det_luts", [corpus.rx("[%s]+[0-9]" % c) for c in ["a-c", "d-fx", "g-iy", "j-lz", "m-oA", "p-rB", "s-uC", "v-wD", "E-GE", "H-JF", "K-MG", "N-PH"]]))
+    defs.append(corpus.mk("det_errs", [corpus.rx("[a-f]+"), corpus.rx("[d-k]+"), corpus.rx("[j-p]+"), corpus.rx("[o-z]+"), corpus.rx("[a-z]{2}")]))
+    defs.append(corpus.mk("det_kw", [corpus.tok(k) for k in ["as", "async", "await", "break", "const", "continue", "crate", "dyn", "else", "enum", "extern", "false", "fn", "for", "if", "impl", "in", "let", "loop", "match", "mod", "move", "mut", "pub", "ref", "return", "self", "static", "struct", "super", "trait", "true", "type", "unsafe", "use", "where", "while"]] + [corpus.rx(r"\p{XID_Start}\p{XID_Continue}*")]))
+    seen = set()
+    defs = [d for d in defs if not (d["id"] in seen or seen.add(d["id"]))]
+    r = front.det_run(tier, seed, defs)
+    cov = {"evaluations": r["events"], "distinct_nontrivial": r["keys"], "samples": r["samples"], "threads_per_process": r["threads"], "processes_per_generator": r["processes"], "definitions": r["definitions"],
+           "rule": "generate() and strip_attributes() for every corpus definition on every thread of every process, tail-call and state-machine generators; one event per (definition, generator, process, thread) with digests of the output text, "
+                   "the captured final graph and the stripped enum; GenTrace.tla accepts the shuffled event trace iff every key has a single digest; distinct = (definition, generator) keys"}
+    finish("C16", tier, seed, "exploration", cov, r["findings"], t0, ["hash seeds are those RandomState draws per thread/process; no seed is forced", "digest = two 64-bit FNV-1a passes + length"])
